@@ -64,7 +64,8 @@ def theory_files() -> List[str]:
 
 
 def gen_fact_files() -> List[str]:
-    return [os.path.relpath(f, COQ) for f in sorted(glob.glob(os.path.join(COQ, "generated", "Facts_*.v")))]
+    from .rundir import GEN
+    return [os.path.relpath(f, COQ) for f in sorted(glob.glob(os.path.join(GEN, "Facts_*.v")))]
 
 
 def ensure_build(timeout: int = 1500) -> Tuple[bool, str]:
@@ -105,7 +106,8 @@ def grep_gate() -> List[str]:
 def property_obligations(pid: str, extra_files: List[str] = ()) -> dict:
     """Recompile Properties/<pid>.v and parse Print Assumptions."""
     res = {"obligations": 0, "discharged": 0, "axioms": [], "theorems": [], "ok": True, "log": ""}
-    for rel in [f"theories/Properties/{pid}.v"] + list(extra_files):
+    from . import rundir
+    for rel in [f"theories/Properties/{pid}.v"] + [rundir.rel(f) for f in extra_files]:
         path = os.path.join(COQ, rel)
         if not os.path.exists(path):
             res["ok"] = False
@@ -114,7 +116,7 @@ def property_obligations(pid: str, extra_files: List[str] = ()) -> dict:
         src = open(path).read()
         src_nc = re.sub(r"\(\*.*?\*\)", "", src, flags=re.S)
         names = re.findall(r"^\s*(?:Theorem|Example|Lemma|Corollary)\s+(\w+)", src_nc, flags=re.M)
-        rc, out = sh(["coqc", "-Q", "theories", "KV", "-Q", "generated", "KVGen", rel], 900)
+        rc, out = sh(["coqc", "-Q", "theories", "KV", "-Q", rundir.GEN_REL, "KVGen", rel], 900)
         res["log"] += out[-3000:]
         if rc != 0:
             res["ok"] = False
@@ -141,6 +143,36 @@ def property_obligations(pid: str, extra_files: List[str] = ()) -> dict:
             res["ok"] = False
             res["log"] += "Print Assumptions output missing\n"
     return res
+
+
+def purge_stale_cases() -> None:
+    """Run directories are kept while their run is alive (a mismatching run's files are its evidence until the
+    next run starts); directories and legacy files of processes that no longer exist are removed here so that
+    coq/generated cannot grow without bound."""
+    import shutil
+    base = os.path.join(COQ, "generated")
+    for d in glob.glob(os.path.join(base, "run_*")):
+        m = re.match(r"run_(\d+)$", os.path.basename(d))
+        if not m or not os.path.isdir(d):
+            continue
+        try:
+            os.kill(int(m.group(1)), 0)
+            continue                      # its run is still going
+        except ProcessLookupError:
+            pass
+        except OSError:
+            continue
+        try:
+            if time.time() - os.path.getmtime(d) > 120:
+                shutil.rmtree(d, ignore_errors=True)
+        except OSError:
+            pass
+    for f in glob.glob(os.path.join(base, "cases_*")) + glob.glob(os.path.join(base, "Facts_*")):
+        try:
+            if time.time() - os.path.getmtime(f) > 120:
+                os.remove(f)
+        except OSError:
+            pass
 
 
 def load_known() -> dict:
@@ -171,6 +203,7 @@ def main(argv: List[str]) -> int:
     rng = random.Random(seed)
     violations: List[dict] = []
     notes: List[str] = []
+    purge_stale_cases()
 
     # 1. proofs
     facts_ok, facts_log = True, ""
@@ -257,6 +290,12 @@ def main(argv: List[str]) -> int:
         return 1
     print(f"{pid} {tier}: ok - {obl['discharged']}/{obl['obligations']} obligations, "
           f"{cov.get('evaluations', 0)} cases, {wall:.1f}s")
+    try:        # nothing to keep from a clean run
+        import shutil
+        from . import rundir
+        shutil.rmtree(rundir.GEN, ignore_errors=True)
+    except Exception:  # noqa
+        pass
     return 0
 
 
